@@ -843,6 +843,11 @@ class Table(Vector):
 				self._underlying[col_idx][row_spec] = sources[i]
 			return
 
+		if isinstance(value, Vector):
+			# A (one-dimensional) vector is a plain sequence of values: t[:, 'x'] = t2.y.
+			# It is read now, like the columns of a Table source above
+			value = list(value)
+
 		# CASE D: Raw 2D Iterable Assignment (List of Columns? List of Rows?)
 		# Ambiguity Trap: Is [[1,2], [3,4]] two rows of two, or two columns of two?
 		# Vector standard: "Iterables usually mean columns". 
